@@ -75,13 +75,21 @@ def gen_fault_spec(rng):
 def add_faults(rng, spec):
     kinds = []
     for _ in range(1 + (rng.random() < 0.3)):
-        k = weighted(rng, [("env_read", 4), ("lrn_predict", 3), ("lrn_learn", 3), ("lrn_params", 1), ("evaluator", 2)])
+        k = weighted(rng, [("env_read", 4), ("lrn_predict", 3), ("lrn_learn", 3), ("lrn_params", 1), ("evaluator", 2), ("env_params", 1), ("val_params", 1)])
         kinds.append(k)
         if k == "env_read":
             g = spec["envs"][rng.randrange(len(spec["envs"]))]
             n = g["src"][1]["n"]
             g["src"][1]["fail_at"] = weighted(rng, [(0, 1), (1, 1), (min(n - 1, 24), 1), (min(n - 1, 25), 2), (min(n - 1, 26), 1),
                                                      (rng.randrange(n), 3), (n - 1, 1)])
+        elif k == "env_params":
+            # (Environments.shuffle looks at params while the pipeline is being built: only groups without a shuffle)
+            gs = [g for g in spec["envs"] if not any(o[0].startswith("shuffle") for o in g["ops"])]
+            if gs:
+                gs[rng.randrange(len(gs))]["src"][1]["params_raise"] = True
+        elif k == "val_params":
+            vi = rng.randrange(len(spec["evaluators"]))
+            spec["evaluators"][vi] = ["faultyval", {"inner": spec["evaluators"][vi], "fail_after": 10 ** 6, "tag": f"v{vi}", "params_raise": True}]
         elif k in ("lrn_predict", "lrn_learn", "lrn_params"):
             where = k.split("_")[1]
             tagged = [g["src"][1]["tag"] for g in spec["envs"]]
@@ -137,7 +145,10 @@ class C03:
             sim = None
             shared_before = None
         if config != [1, 0, 0]:
-            exp, objs = X.build_experiment(spec)
+            try:
+                exp, objs = X.build_experiment(spec)
+            except Exception:
+                return {"digest": "invalid", "trace": [], "nontrivial": False, "violation": None, "counters": {"invalid_spec": 1}, "sample": None}
             sim, outcome, res, objs, log = X.run_simulated(spec, config, seed, choices, knobs=cfg["knobs"], prebuilt=(exp, objs))
             out.update(X.sim_summary(sim))
             digest_src = out["digest"]
